@@ -140,7 +140,7 @@ struct SolverCfg {
         std::vector<std::string> a = {"gmgpolar", "--verbose", "0", "--geometry", std::to_string(geometry), "--problem",
                                       std::to_string(problem), "--alpha_coeff", std::to_string(alpha), "--beta_coeff",
                                       std::to_string(beta), "--kappa_eps", KVnum(kappa_eps), "--delta_e", KVnum(delta_e),
-                                      "--alpha_jump", KVnum(alpha_jump), "--Rmax", KVnum(Rmax), "--R0", KVnum(R0),
+                                      "--alpha_jump", KVnum(alpha_jump), "--Rmax", KVnum(Rmax), "--R0", KVnum(r0Option()),
                                       // as the command line does: setParameters() also makes this the active OpenMP thread
                                       // count, so setup() (level caches, right-hand side, matrix assembly) runs with it
                                       "--maxOpenMPThreads", std::to_string(std::max(threads, 1))};
@@ -155,11 +155,18 @@ struct SolverCfg {
         snprintf(b, sizeof b, "%.17g", v);
         return b;
     }
+    // The R0 option describes the grid the solver generates itself. When the grid is loaded from files a user has no reason
+    // to repeat it: for the odd file-grid kinds the option is left at its default although the loaded grid starts elsewhere
+    // (nothing but the grid generator may depend on it).
+    double r0Option() const
+    {
+        return (grid_kind == 6 || (grid_kind > 0 && grid_kind % 2 == 1)) ? 1e-5 : R0;
+    }
     void applyOptions(GMGPolar& s) const
     {
         s.verbose(verbose);
         s.paraview(false);
-        s.R0(R0);
+        s.R0(r0Option());
         s.Rmax(Rmax);
         s.nr_exp(nr_exp);
         s.ntheta_exp(ntheta_exp);
@@ -195,7 +202,9 @@ struct SolverCfg {
     // between two solves does (re-applying every option would mask state that setup()/solve() corrupt in the object)
     void applyChanged(GMGPolar& s, const SolverCfg& prev) const
     {
-        if (grid_kind != prev.grid_kind || (grid_kind > 0 && (R0 != prev.R0 || Rmax != prev.Rmax))) {
+        if (grid_kind != prev.grid_kind || (grid_kind > 0 && (R0 != prev.R0 || Rmax != prev.Rmax)) ||
+            (grid_kind == 6 && (nr_exp != prev.nr_exp || ntheta_exp != prev.ntheta_exp || aniso != prev.aniso || div != prev.div ||
+                                alpha_jump != prev.alpha_jump))) {
             s.load_grid_file(grid_kind > 0);
             if (grid_kind > 0) {
                 auto f = gridFiles();
@@ -204,7 +213,7 @@ struct SolverCfg {
             }
         }
         if (verbose != prev.verbose) s.verbose(verbose);
-        if (R0 != prev.R0) s.R0(R0);
+        if (r0Option() != prev.r0Option()) s.R0(r0Option());
         if (Rmax != prev.Rmax) s.Rmax(Rmax);
         if (nr_exp != prev.nr_exp) s.nr_exp(nr_exp);
         if (ntheta_exp != prev.ntheta_exp) s.ntheta_exp(ntheta_exp);
@@ -236,11 +245,14 @@ struct SolverCfg {
     //   angles with alternating interval widths (fine nodes are midpoints)
     std::pair<std::string, std::string> gridFiles() const
     {
-        static const int kNr[6] = {0, 17, 33, 17, 25, 17}, kNt[6] = {0, 24, 48, 12, 40, 32};
-        const int nr = kNr[grid_kind], nt = kNt[grid_kind];
-        char tag[160];
+        static const int kNr[7] = {0, 17, 33, 17, 25, 17, 0}, kNt[7] = {0, 24, 48, 12, 40, 32, 0};
+        int nr = kNr[grid_kind], nt = kNt[grid_kind];
+        char tag[200];
         snprintf(tag, sizeof tag, "/verif_grid_%ld_%d_%016llx", (long)getpid(), grid_kind,
-                 (unsigned long long)fnv1a(KVnum(R0) + "/" + KVnum(Rmax)));
+                 (unsigned long long)fnv1a(KVnum(R0) + "/" + KVnum(Rmax) +
+                                           (grid_kind == 6 ? "/" + std::to_string(nr_exp) + "/" + std::to_string(ntheta_exp) + "/" + std::to_string(aniso) +
+                                                                 "/" + std::to_string(div) + "/" + KVnum(alpha_jump)
+                                                           : std::string())));
         const char* t = getenv("TMPDIR");
         const std::string base = std::string(t ? t : "/tmp") + tag;
         const std::string fr = base + "_r.txt", ft = base + "_t.txt";
@@ -252,7 +264,16 @@ struct SolverCfg {
                         std::remove(f.c_str());
                 });
             std::vector<double> r(nr), a(nt + 1);
-            for (int i = 0; i < nr; i++) {
+            if (grid_kind == 6) {
+                // 6: the grid this configuration's generator options describe, written out and loaded back (the write-then-load
+                //    workflow of write_grid_file / load_grid_file): node for node the generated grid
+                PolarGrid gen(R0, Rmax, nr_exp, ntheta_exp, alpha_jump, aniso, div);
+                r  = gen.radii();
+                a  = gen.angles();
+                nr = (int)r.size();
+                nt = (int)a.size() - 1;
+            }
+            for (int i = 0; i < nr && grid_kind != 6; i++) {
                 double x = (double)i / (nr - 1);
                 if (grid_kind == 4)
                     x = (std::pow(3.0, x) - 1.0) / 2.0; // geometric
@@ -267,7 +288,7 @@ struct SolverCfg {
                 }
             r[0]      = R0;
             r[nr - 1] = Rmax;
-            for (int j = 0; j <= nt; j++)
+            for (int j = 0; j <= nt && grid_kind != 6; j++)
                 a[j] = 2 * M_PI * j / nt;
             if (grid_kind == 5) {
                 const int m = nt / 2; // half turn; blocks of 4 fine intervals with coarse widths 1 : 2
@@ -301,7 +322,7 @@ struct SolverCfg {
         auto I = [](long v) { return std::to_string(v); };
         return {"gmgpolar", "--verbose", I(verbose), "--paraview", "0", "--geometry", I(geometry), "--problem", I(problem), "--alpha_coeff", I(alpha),
                 "--beta_coeff", I(beta), "--kappa_eps", KVnum(kappa_eps), "--delta_e", KVnum(delta_e), "--alpha_jump", KVnum(alpha_jump),
-                "--Rmax", KVnum(Rmax), "--R0", KVnum(R0), "--nr_exp", I(nr_exp), "--ntheta_exp", I(ntheta_exp), "--anisotropic_factor", I(aniso),
+                "--Rmax", KVnum(Rmax), "--R0", KVnum(r0Option()), "--nr_exp", I(nr_exp), "--ntheta_exp", I(ntheta_exp), "--anisotropic_factor", I(aniso),
                 "--divideBy2", I(div), "--write_grid_file", "0", "--load_grid_file", I(grid_kind > 0), "--file_grid_radii", grid_kind > 0 ? gridFiles().first : std::string("none"),
                 "--file_grid_angles", grid_kind > 0 ? gridFiles().second : std::string("none"), "--DirBC_Interior", I(dirbc != 0), "--FMG", I(fmg != 0),
                 "--FMG_iterations", I(fmg_its), "--FMG_cycle", I(fmg_cycle), "--extrapolation", I(extrapolation), "--maxLevels", I(max_levels),
